@@ -110,9 +110,10 @@ CHECKS = {
         "assumptions": _SEM_ASSUME,
         "units": [
             U("props/lang", "TestC10Deterministic", (450, 10), (20000, 12)),
+            U("props/lang", "TestC10FixIncludes", (1500, 2), (30000, 4)),
             U("props/run", "TestC10Run", (250, 6), (4000, 6)),
         ],
-        "floors": {"quick": {"multi-error": 800, "call-graph": 2000, "run": 1000}},
+        "floors": {"quick": {"multi-error": 800, "call-graph": 2000, "run": 1000, "fix-includes:several-added": 800, "fix-includes:several-undeclared": 100}},
     },
     "C11": {
         "level": "exploration",
